@@ -1,6 +1,163 @@
-//! C12 — stub (to be written; see /verif/harness/AUTHORING.md and DESIGN.md §3 C12)
-use vengine::Property;
+//! C12 — logistic and Tweedie regression return stationary points; probabilities valid.
+//!
+//! The oracle is the harness' own objective (module `model`): value, analytic gradient and Hessian
+//! of the documented loss, validated against finite differences by the `oracle_selftest`
+//! sub-check. A fit is judged by the norm of that gradient at the point linfa returns.
+
+pub mod glm;
+pub mod logistic;
+pub mod model;
+
+use model::{Binary, Lk, Multi, Objective, Tweedie};
+use proptest::prelude::*;
+use serde::{Deserialize, Serialize};
+use vengine::gen::SplitMix;
+use vengine::{prop_sub, Obs, Property, Tier};
+
+// ------------------------------------------------------------------------------------------------
+// self test of the oracle: analytic gradient vs central differences of the own objective,
+// analytic Hessian vs central differences of the own gradient
+
+#[derive(Debug, Clone, Serialize, Deserialize)]
+pub struct SelfCase {
+    pub seed: u64,
+    /// 0 binary, 1 multinomial, 2 Tweedie
+    pub model: u8,
+    pub n: usize,
+    pub p: usize,
+    pub k: usize,
+    pub intercept: bool,
+    pub alpha_ix: u8,
+    pub power_ix: u8,
+    pub link_ix: u8,
+}
+
+/// relative (to 1 + largest entry) error allowed between analytic and finite-difference derivatives
+pub const FD_TOL: f64 = 2e-6;
+
+fn selftest(c: &SelfCase, obs: &mut Obs) {
+    let mut rng = SplitMix(c.seed);
+    let n = c.n.clamp(3, 40);
+    let p = c.p.clamp(1, 4);
+    let k = c.k.clamp(2, 6);
+    let alpha = [0.0, 1e-3, 1.0, 10.0][(c.alpha_ix as usize).min(3)];
+    let x: Vec<Vec<f64>> = (0..n).map(|_| (0..p).map(|_| rng.gauss()).collect()).collect();
+    let (eg, eh, what) = match c.model % 3 {
+        0 => {
+            obs.class("selftest_binary");
+            let y: Vec<f64> = (0..n).map(|_| if rng.unit() < 0.5 { 1.0 } else { -1.0 }).collect();
+            let obj = Binary { x: &x, y: &y, p, intercept: c.intercept, alpha };
+            let t: Vec<f64> = (0..obj.dim()).map(|_| rng.gauss()).collect();
+            let (a, b) = model::fd_errors(&obj, &t);
+            (a, b, "binary")
+        }
+        1 => {
+            obs.class("selftest_multinomial");
+            let cl: Vec<usize> = (0..n).map(|_| rng.below(k)).collect();
+            let obj = Multi { x: &x, c: &cl, p, k, intercept: c.intercept, alpha };
+            let t: Vec<f64> = (0..obj.dim()).map(|_| rng.gauss()).collect();
+            let (a, b) = model::fd_errors(&obj, &t);
+            (a, b, "multinomial")
+        }
+        _ => {
+            let power = glm::POWERS[(c.power_ix as usize).min(glm::POWERS.len() - 1)];
+            let link = [Lk::Identity, Lk::Log, Lk::Logit][(c.link_ix as usize).min(2)];
+            obs.class(match link {
+                Lk::Identity => "selftest_tweedie_identity",
+                Lk::Log => "selftest_tweedie_log",
+                Lk::Logit => "selftest_tweedie_logit",
+            });
+            // parameters that keep every mean well inside the domain
+            let mut t: Vec<f64> = (0..p).map(|_| 0.2 * rng.gauss()).collect();
+            let intercept = c.intercept || link == Lk::Identity;
+            if intercept {
+                t.push(if link == Lk::Identity { 4.0 } else { 0.3 * rng.gauss() });
+            }
+            let x: Vec<Vec<f64>> = x.iter().map(|r| r.iter().map(|v| v.clamp(-2.5, 2.5)).collect()).collect();
+            let y: Vec<f64> = (0..n)
+                .map(|i| {
+                    let u = rng.unit();
+                    if (1.0..2.0).contains(&power) && i % 5 == 0 {
+                        0.0
+                    } else if link == Lk::Logit {
+                        0.05 + 0.9 * u
+                    } else {
+                        0.2 + 4.0 * u
+                    }
+                })
+                .collect();
+            let obj = Tweedie { x: &x, y: &y, p, intercept, alpha, power, link };
+            if !obj.in_domain(&t) {
+                obs.skip("selftest_point_outside_domain");
+                return;
+            }
+            let (a, b) = model::fd_errors(&obj, &t);
+            (a, b, "tweedie")
+        }
+    };
+    obs.nontrivial();
+    obs.ensure(eg <= FD_TOL, "selftest:gradient-vs-finite-differences", || {
+        format!("{what}: analytic gradient of the harness objective differs from central differences by {eg:e} (relative)")
+    });
+    obs.ensure(eh <= FD_TOL, "selftest:hessian-vs-finite-differences", || {
+        format!("{what}: analytic Hessian of the harness objective differs from central differences of its gradient by {eh:e} (relative)")
+    });
+}
+
+fn self_strategy() -> impl Strategy<Value = SelfCase> {
+    (any::<u64>(), 0u8..3, 3usize..=40, 1usize..=4, 2usize..=6, any::<bool>(), 0u8..4, 0u8..7, 0u8..3).prop_map(
+        |(seed, model, n, p, k, intercept, alpha_ix, power_ix, link_ix)| SelfCase { seed, model, n, p, k, intercept, alpha_ix, power_ix, link_ix },
+    )
+}
 
 pub fn property() -> Property {
-    Property { id: "C12", rule: "", assumptions: vec![], subs: vec![] }
+    Property {
+        id: "C12",
+        rule: "logistic cases = (n 20..120 rows x p 1..4 gaussian features times scale {1,10,100}, labels drawn from a random linear score plus \
+               logistic/Gumbel noise, class balance 0.1..0.9 / 2..6 classes, label type bool|usize|String with permuted names, permuted sample order, \
+               alpha {0,1e-3,1,10}, intercept on/off, optional initial parameters, gradient tolerance {1e-4,1e-6}, decision threshold); every case is \
+               fitted twice (generated order/naming and canonical order with usize labels). GLM cases = power {0,1,1.2,1.5,1.8,2,3} x link \
+               {identity,log,logit}, targets generated from the model with multiplicative noise, exact zeros for 1<=power<2, planted out-of-support \
+               targets. Non-trivial = (alpha = 0 and the harness certified overlapping classes) or (String labels whose names are not in class-index \
+               order) or (GLM with 1 <= power < 2 that was judged) or an oracle self-test case; distinct = distinct canonical JSON of the case",
+        assumptions: vec![
+            format!(
+                "stationarity bound: |grad|_2 <= {}*gradient_tolerance + {:e}*sqrt(curv*max(1,|F|)), grad = analytic gradient of the harness' own objective, \
+                 curv = trace of its (Fisher) curvature at the returned point; the second term is the gradient size of a point whose objective is within 22 eps|F| of the minimum",
+                model::GRAD_SLACK,
+                model::RESOLUTION_FACTOR
+            ),
+            format!(
+                "a fit whose gradient exceeds the bound but whose objective is within {:e}*max(1,|F|) of the harness' Newton-polished local minimum is counted as \
+                 'stalled at cost resolution' and not judged on stationarity (argmin stops on |prev_cost-cost| < eps and returns the last strictly better cost)",
+                model::STALL_REL
+            ),
+            "fits that return Err (solver/line-search failure) are counted, not judged".into(),
+            format!(
+                "alpha = 0 is used only when the harness' own Newton solution of the unpenalised problem has |grad| <= {:e}*feature_scale with every class probability of every sample >= {:e} \
+                 (certificate that the classes overlap); otherwise alpha = {} is forced",
+                logistic::CERT_GRAD,
+                logistic::CERT_PROB,
+                logistic::FORCED_ALPHA
+            ),
+            "binary objective: sum ln(1+exp(-y z)) + alpha/2 |w|^2 with y = +1 for labels().pos.class (whichever class linfa reports as positive), intercept unpenalised; \
+             multinomial: -sum ln softmax(xW+b)[class] + alpha/2 |W|_F^2, one-hot columns in sorted class order"
+                .into(),
+            "probabilities are compared with the harness' own logistic/softmax of the score, allowing a score rounding error of 16 eps * sum|x_j w_j| and 1e-12 relative; \
+             rows sum to one within 1e-9; extreme rows have |x.w| = 1e3 and single features of 1e6*scale"
+                .into(),
+            "binary decision: predict == pos exactly when linfa's own probability >= threshold; multinomial: the predicted class must have the row-maximal probability within 1e-12 relative (ties may be broken either way)".into(),
+            "GLM objective 1/2(sum d_p(y,mu) + alpha |w|^2) with textbook unit deviances, intercept unpenalised; identity link with power >= 1 is always fitted with an intercept and a returned point \
+             outside the deviance's domain (mean <= 0) is counted, not judged; log/logit links: targets generated inside the link's mean range"
+                .into(),
+            "only f64 is exercised; max_iterations = 2000".into(),
+            format!("oracle self-test: analytic gradient/Hessian of the harness objectives agree with central differences within {:e} relative", FD_TOL),
+        ],
+        subs: vec![
+            prop_sub("multinomial", 700, 14000, |t: Tier| logistic::case_strategy(true, t), logistic::check).chunks(16),
+            prop_sub("binary", 1200, 24000, |t: Tier| logistic::case_strategy(false, t), logistic::check).chunks(16),
+            prop_sub("glm", 2000, 40000, glm::case_strategy, glm::check).chunks(16),
+            prop_sub("oracle_selftest", 300, 3000, |_t: Tier| self_strategy(), selftest).chunks(2),
+        ],
+    }
 }
